@@ -788,6 +788,18 @@ class Executor:
             key = self.eval(sl, st)
             self.check(st, "KeyError", dicts.contains(base, key), node)
             return dicts.get(base, key)
+        if isinstance(base.kind, KStr) and isinstance(sl, ast.Slice) and isinstance(base.py, str):
+            # slice of a string CONSTANT with constant bounds: folded
+            def cb(b):
+                if b is None:
+                    return None
+                t = z3.simplify(to_int(self.eval(b, st)))
+                if not z3.is_int_value(t):
+                    self.unsupported(node, "string slice with a symbolic bound")
+                return t.as_long()
+            if sl.step is not None:
+                self.unsupported(node, "string slice with a step")
+            return strings.lit(base.py[cb(sl.lower):cb(sl.upper)])
         if isinstance(base.kind, KStr):
             idx = z3.simplify(to_int(self.eval(sl, st)))
             if z3.is_int_value(idx) and idx.as_long() == 0:
@@ -1056,7 +1068,13 @@ class Executor:
             return fresh(self.kind_of(spec.returns), "ret_dead")
         for n, ktxt in spec.params.items():
             if n in formals:
-                formals[n], sc = coerce(formals[n], self.kind_of(ktxt))
+                try:
+                    formals[n], sc = coerce(formals[n], self.kind_of(ktxt))
+                except OutOfSubset:
+                    # an argument of a kind no contract of the callee accepts: allowed only on a dead path
+                    self.check(st, "call-outside-contract:%s.%s" % (fi.short, n), FALSE, node, kind="call-pre")
+                    st.pc = FALSE
+                    return fresh(self.kind_of(spec.returns), "ret_dead")
                 self.check(st, "arg-kind:" + fi.short + "." + n, sc, node, kind="call-pre")
         # ghost parameters: taken from the caller's ghost_calls map, else from a caller variable of the same name
         for g, ktxt in spec.ghost.items():
@@ -1575,5 +1593,5 @@ def spec_allocates(spec):
     return isinstance(parse_kind(spec.returns) if isinstance(spec.returns, str) else spec.returns, KRef)
 
 
-BUILTIN_NAMES = {"len", "abs", "min", "max", "int", "float", "isinstance", "range", "print", "str", "list",
+BUILTIN_NAMES = {"len", "abs", "min", "max", "int", "float", "isinstance", "range", "print", "str", "list", "type",
                  "all", "any", "implies", "old", "bool", "round", "exit", "sum", "enumerate", "set", "dict", "tuple"}
